@@ -1585,6 +1585,45 @@ class _YieldToStore(ast.NodeTransformer):
         return self.generic_visit(node)
 
 
+class _EafpLookups(ast.NodeTransformer):
+    """`try: x = D[k]  except KeyError: H`  ->  `if k in D: x = D[k]  else: H`   and
+    `try: x = o.a  except AttributeError: H`  ->  `if hasattr(o, "a"): x = o.a  else: H`
+    when the guarded statement is that single read of names / attributes / constant subscripts (nothing else in it can
+    raise the exception) and there is neither else nor finally."""
+
+    def __init__(self):
+        self.n = 0
+
+    @staticmethod
+    def _plain(e) -> bool:
+        if isinstance(e, (ast.Name, ast.Constant)):
+            return True
+        if isinstance(e, ast.Attribute):
+            return _EafpLookups._plain(e.value)
+        return False
+
+    def visit_Try(self, node: ast.Try):
+        self.generic_visit(node)
+        if node.orelse or node.finalbody or len(node.handlers) != 1 or len(node.body) != 1:
+            return node
+        h = node.handlers[0]
+        st = node.body[0]
+        if h.name is not None or not isinstance(h.type, ast.Name) or not isinstance(st, ast.Assign) or len(st.targets) != 1 or not isinstance(st.targets[0], ast.Name):
+            return node
+        v = st.value
+        import copy as _copy
+
+        if h.type.id == "KeyError" and isinstance(v, ast.Subscript) and self._plain(v.value) and self._plain(v.slice):
+            test = ast.Compare(left=_copy.deepcopy(v.slice), ops=[ast.In()], comparators=[_copy.deepcopy(v.value)])
+        elif h.type.id == "AttributeError" and isinstance(v, ast.Attribute) and self._plain(v.value) and not isinstance(v.value, ast.Constant):
+            test = ast.Call(func=ast.Name(id="hasattr", ctx=ast.Load()), args=[_copy.deepcopy(v.value), ast.Constant(value=v.attr)], keywords=[])
+        else:
+            return node
+        self.n += 1
+        new = ast.If(test=test, body=[st], orelse=list(h.body))
+        return ast.fix_missing_locations(ast.copy_location(new, node))
+
+
 def _inline_local_generators(trees: Dict[str, ast.Module]) -> int:
     """`def pairs(): for ..: yield k, v` nested in a function and used once as `x = dict(pairs())` / `x = list(pairs())`
     is the loop that fills x: the def is dropped, `x = {}` / `x = []` and the body with `x[k] = v` / `x.append(e)` in place
@@ -1636,6 +1675,9 @@ def canonicalise(trees: Dict[str, ast.Module]) -> Dict[str, str]:
 
     lower_matches(trees)  # `match` statements are read as the if / elif chains they abbreviate
     _inline_local_generators(trees)
+    for t in trees.values():
+        if any(isinstance(x, ast.Try) for x in ast.walk(t)):
+            _EafpLookups().visit(t)
     for t in trees.values():
         if any(isinstance(x, ast.Return) and isinstance(x.value, ast.IfExp) for x in ast.walk(t)):
             _SplitIfExpReturn().visit(t)
